@@ -321,7 +321,18 @@ Section Sorted.
     conv_kind cls rid cvf k nm items props req ap oneo s0 = Some (te, s1) -> SI s0 -> SI s1 /\ SD te.
   Proof.
     intros HPi HPp HPa HPo0 H Hs. destruct (arms_props SortP oneo HPo0) as [HPo HPoB].
-    destruct k as [| | | |mx mn pat|r|raws|deny| | |c|c|r| |tg]; cbn [conv_kind] in H.
+    destruct k as [| | | |mx mn pat|r|raws|deny| | |c|c|r| |tg|]; cbn [conv_kind] in H.
+    16: { (* KOpt *)
+      destruct oneo as [[|a [|b [|]]]|]; try discriminate. cbn [OForall] in HPoB.
+      assert (Hgen : forall arm, SortP arm ->
+                match cvf arm (inner_name nm) s0 with
+                | Some (te0, sa) => let '(i, sb) := assign te0 sa in Some (DOption i, sb)
+                | None => None end = Some (te, s1) -> SI s1 /\ SD te).
+      { intros arm HQa Hx. destruct (cvf arm (inner_name nm) s0) as [[te0 sa]|] eqn:Hc; [|discriminate].
+        destruct (HQa _ _ _ _ Hc Hs) as [Hsa Hte].
+        destruct (assign te0 sa) as [i sb] eqn:Ha. injection Hx as <- <-.
+        split; [exact (assign_SI _ _ _ _ Ha Hsa Hte)|exact I]. }
+      destruct (nullish a); [exact (Hgen b (Forall_inv (Forall_inv_tail HPoB)) H)|exact (Hgen a (Forall_inv HPoB) H)]. }
     15: { destruct tg as [|tg|tg ct|]; (destruct (type_name cls nm); [|discriminate]);
             (destruct oneo as [bs|]; [|discriminate]); cbn [OForall] in HPo, HPoB.
           4: { destruct (conv_ubranches cvf u 0 bs s0) as [[[rvs deny] sa]|] eqn:Hb; [|discriminate].
@@ -659,8 +670,18 @@ Section Slots.
     conv_kind cls rid cvf k nm items props req ap oneo s0 = Some (te, s1) -> frame s0 s1.
   Proof.
     intros HPi HPp HPa HPo0 H. destruct (arms_props FrameP oneo HPo0) as [HPo HPoB].
-    destruct k as [| | | |mx mn pat|r|raws|deny| | |c|c|r| |tg]; cbn [conv_kind] in H;
+    destruct k as [| | | |mx mn pat|r|raws|deny| | |c|c|r| |tg|]; cbn [conv_kind] in H;
       try (injection H as _ <-; apply frame_refl).
+    11: { (* KOpt *)
+      destruct oneo as [[|a [|b [|]]]|]; try discriminate. cbn [OForall] in HPoB.
+      assert (Hgen : forall arm, FrameP arm ->
+                match cvf arm (inner_name nm) s0 with
+                | Some (te0, sa) => let '(i, sb) := assign te0 sa in Some (DOption i, sb)
+                | None => None end = Some (te, s1) -> frame s0 s1).
+      { intros arm HQa Hx. destruct (cvf arm (inner_name nm) s0) as [[te0 sa]|] eqn:Hc; [|discriminate].
+        destruct (assign te0 sa) as [i sb] eqn:Ha. injection Hx as _ <-.
+        eapply frame_trans; [exact (HQa _ _ _ _ Hc)|exact (assign_frame _ _ _ _ Ha)]. }
+      destruct (nullish a); [exact (Hgen b (Forall_inv (Forall_inv_tail HPoB)) H)|exact (Hgen a (Forall_inv HPoB) H)]. }
     10: { destruct tg as [|tg|tg ct|]; (destruct (type_name cls nm); [|discriminate]);
             (destruct oneo as [bs|]; [|discriminate]); cbn [OForall] in HPo, HPoB.
           4: { destruct (conv_ubranches cvf u 0 bs s0) as [[[rvs deny] sa]|] eqn:Hb; [|discriminate].
